@@ -50,7 +50,7 @@ class WeaveError(Exception):
 
 
 LOG_RE = re.compile(r'\b(?:tracing::|log::)?(trace|debug|info|warn|error)!\s*\(')
-DROP_ATTR_RE = re.compile(r'^[ \t]*#\[(inline|allow|tracing::instrument|instrument|serde|cfg_attr|must_use|doc|error|repr)\b[^\n]*\]?[ \t]*$', re.M)
+DROP_ATTR_RE = re.compile(r'^[ \t]*#\[(inline|allow|tracing::instrument|instrument|serde|cfg_attr|must_use|doc|error|repr|default)\b[^\n]*\]?[ \t]*$', re.M)
 KEEP_DERIVES = ('Clone', 'Copy', 'PartialEq', 'Eq')
 LABEL_RE = re.compile(r'^\s*\[([PA])\s+([A-Z0-9,]+)\s+([A-Za-z0-9_.:@#-]+)\]\s*')
 
